@@ -435,7 +435,7 @@ def make_sched_run(cfg):
     from vf.explore import HarnessError
     install_shims()
     from Pyro5 import server
-    watch = S.watch_functions(server._get_exposed_members, server._reset_exposed_members, server.DaemonObject.get_metadata)
+    watch = S.watch_functions(server._get_exposed_members, server._reset_exposed_members, server.DaemonObject.get_metadata, follow=True)
 
     def run_fn(chooser):
         cls, want, _ = member_class(server)
